@@ -377,6 +377,21 @@ pub fn model_map(
     ambig_mask: bool,
     repeat_mask: bool,
 ) -> (Vec<Vec<Vec<u8>>>, bool) {
+    model_map_disp(reference, reference, dicts, k, rc, ambig_mask, repeat_mask)
+}
+
+/// As `model_map`, with the letters that are *displayed* as reference bases (`display`) kept apart from the
+/// letters that define the reference k-mers (`reference`): used for reference letters outside A/C/G/T/N, whose
+/// reading as a k-mer letter the tool does not define.
+pub fn model_map_disp(
+    reference: &[Vec<u8>],
+    display: &[Vec<u8>],
+    dicts: &[BTreeMap<String, u8>],
+    k: usize,
+    rc: bool,
+    ambig_mask: bool,
+    repeat_mask: bool,
+) -> (Vec<Vec<Vec<u8>>>, bool) {
     let h = (k - 1) / 2;
     let mut refk: Vec<(usize, usize, String, bool)> = Vec::new();
     let mut count: BTreeMap<String, usize> = BTreeMap::new();
@@ -398,7 +413,7 @@ pub fn model_map(
         }
         for (ci, p, _, _) in matched.iter().map(|x| (x.0, x.1, &x.2, x.3)) {
             for q in (p - h)..=(p + h) {
-                out[ci][q] = reference[ci][q].to_ascii_uppercase();
+                out[ci][q] = display[ci][q].to_ascii_uppercase();
             }
         }
         for (ci, p, a, f) in matched.iter().map(|x| (x.0, x.1, &x.2, x.3)) {
